@@ -121,14 +121,14 @@ static void run() {
       stack.push_back(std::make_shared<UnionArray8_64>(noid, noparams, t, i, cs)); }
     else if (c == "view") { int64_t a = nint(), b = nint(); ContentPtr x = pop(); stack.push_back(x.get()->getitem_range_nowrap(a, b)); }
     else if (c == "getitem") { int64_t k = nint(); Slice sl; for (int64_t i = 0; i < k; i++) sl.append(sliceitem()); sl.become_sealed(); ContentPtr x = pop(); stack.push_back(x.get()->getitem(sl)); }
-    else if (c == "maskof") { ContentPtr x = pop(); Index8 m(0);
-      if (IndexedOptionArray64* r = dynamic_cast<IndexedOptionArray64*>(x.get())) m = r->bytemask();
-      else if (IndexedOptionArray32* r = dynamic_cast<IndexedOptionArray32*>(x.get())) m = r->bytemask();
-      else if (ByteMaskedArray* r = dynamic_cast<ByteMaskedArray*>(x.get())) m = r->bytemask();
-      else if (BitMaskedArray* r = dynamic_cast<BitMaskedArray*>(x.get())) m = r->bytemask();
-      else if (UnmaskedArray* r = dynamic_cast<UnmaskedArray*>(x.get())) m = r->bytemask();
+    else if (c == "maskof") { ContentPtr x = pop(); std::shared_ptr<Index8> m;
+      if (IndexedOptionArray64* r = dynamic_cast<IndexedOptionArray64*>(x.get())) m = std::make_shared<Index8>(r->bytemask());
+      else if (IndexedOptionArray32* r = dynamic_cast<IndexedOptionArray32*>(x.get())) m = std::make_shared<Index8>(r->bytemask());
+      else if (ByteMaskedArray* r = dynamic_cast<ByteMaskedArray*>(x.get())) m = std::make_shared<Index8>(r->bytemask());
+      else if (BitMaskedArray* r = dynamic_cast<BitMaskedArray*>(x.get())) m = std::make_shared<Index8>(r->bytemask());
+      else if (UnmaskedArray* r = dynamic_cast<UnmaskedArray*>(x.get())) m = std::make_shared<Index8>(r->bytemask());
       else throw std::runtime_error("akrun: maskof on a non-option node");
-      printf("OK ["); for (int64_t i = 0; i < m.length(); i++) printf("%s%d", i ? ", " : "", (int)m.getitem_at_nowrap(i)); printf("]\n"); fflush(stdout); _Exit(0); }
+      printf("OK ["); for (int64_t i = 0; i < m->length(); i++) printf("%s%d", i ? ", " : "", (int)m->getitem_at_nowrap(i)); printf("]\n"); fflush(stdout); _Exit(0); }
     else if (c == "getfield") { std::string k = next(); ContentPtr x = pop(); stack.push_back(x.get()->getitem_field(k)); }
     else if (c == "getfields") { int64_t n = nint(); std::vector<std::string> ks; for (int64_t i = 0; i < n; i++) ks.push_back(next()); ContentPtr x = pop(); stack.push_back(x.get()->getitem_fields(ks)); }
     else if (c == "at") { int64_t a = nint(); ContentPtr x = pop(); stack.push_back(x.get()->getitem_at(a)); }
